@@ -113,6 +113,32 @@ def run_shard(spec, res):
                     run.step({"op": rng.choice(["eval", "max", "min", "satisfiable"]), "s": m, "e": y_ if m else x_, "n": rng.choice([1, 2]), "signed": False, "extra": []})
                 anc_idx = None
                 res.count("directed_combine_cases")
+            directed_simplify = it % 6 == 4
+            if directed_simplify:
+                # constraints over separate variables, simplified, then more constraints on only some of the variables
+                # and simplified again (explicitly, or by the queries that simplify first): what the solver lists as its
+                # constraints afterwards is what combine / merge / split work from
+                run = api.Run(res, uni_vars, cls, PID, mode="exact" if exact else "none", cfg=cfg, keep=keep)
+                x_, y_ = al.v(0), al.v(1 % al.nvars)
+                cmp_ = lambda v_: [rng.choice(["ult", "ugt", "ne", "ule", "uge"]), v_, ["bvv", rng.randrange(1, (1 << al.w) - 1), al.w]]  # noqa: E731
+                simp_ = lambda: run.step(rng.choice([{"op": "simplify", "s": 0}, {"op": "max", "s": 0, "e": x_, "signed": False, "extra": []}, {"op": "min", "s": 0, "e": y_, "signed": False, "extra": []}, {"op": "eval", "s": 0, "e": x_, "n": 3, "extra": []}]))  # noqa: E731
+                run.step({"op": "add", "s": 0, "cons": [cmp_(x_)]})
+                run.step({"op": "add", "s": 0, "cons": [cmp_(y_)]})
+                simp_()
+                for _ in range(rng.choice([1, 2, 3])):
+                    run.step({"op": "add", "s": 0, "cons": [cmp_(rng.choice([x_, y_]))]})
+                    simp_()
+                    if rng.random() < 0.4:
+                        run.step({"op": "simplify", "s": 0})
+                members = [0]
+                for _ in range(rng.choice([1, 2])):
+                    run.live.append(api.Live(cls(), [], label=f"s{len(run.live)}"))
+                    members.append(len(run.live) - 1)
+                    run.step({"op": "add", "s": members[-1], "cons": [cmp_(rng.choice([x_, y_]))]})
+                if rng.random() < 0.5:
+                    members.reverse()  # the simplified solver as one of the others
+                anc_idx = None
+                res.count("directed_simplify_cases")
             if run.failed:
                 continue
             if any(run.live[m].tainted for m in members) or (anc_idx is not None and run.live[anc_idx].tainted):
@@ -121,6 +147,10 @@ def run_shard(spec, res):
             op = rng.choice(["merge", "merge", "merge_anc", "combine", "combine", "split", "split"])
             if directed_combine:
                 op = "combine"
+            if directed_simplify:
+                op = rng.choice(["combine", "combine", "merge", "split"])
+                if op == "split" and members[0] != 0:
+                    members.reverse()
             if op == "merge_anc" and anc_idx is None:
                 op = "merge"
             lives = [run.live[m] for m in members]
